@@ -11,7 +11,10 @@ kind,root=sys.argv[1],sys.argv[2]
 for l in open('/verif/properties.jsonl'):
     p=json.loads(l); pid=p['id']
     base="Property %s: %s\n\n%s\n\nQuantifier: %s\n"%(pid,p['title'],p['statement'],p['quantifier']['text'])
-    if kind=='seed':
+    if kind=='hunt':
+        known=[l.split(' | ',4) for l in open('/verif/known_findings.txt') if l.startswith(('known |','fixed |')) and (' | %s | '%pid) in l]
+        txt=base+'\nAlready known (do not report again):\n'+'\n'.join('- '+k[-1].strip() for k in known)+'\n'
+    elif kind=='seed':
         prev=[json.load(open(m))['summary'] for m in sorted(glob.glob('/verif/seeded/%s-*/meta.json'%pid))]
         txt=base+"\nChanges already collected for this property (produce something that works through a DIFFERENT mechanism/function than these):\n"+'\n'.join('- '+s for s in prev)+"\n"
     else:
